@@ -33,28 +33,8 @@ import (
 // UnmarshalJSON re-derives from other content (named predicate over the edit).
 const clsRederived = "c08.memberRederivedAtUnmarshal"
 
-// the re-encoding writes a character of an amount / percentage string as a \u escape
-const clsEscAmount = "c08.escapedCharInAmountText"
-
 // the edit removes `tax` from an invoice that uses the gr-mydata-v1 addon (Validate panics)
 const clsGrTax = "c08.grMydataInvoiceWithoutTax"
-
-var reStrLit = regexp.MustCompile(`"(?:[^"\\]|\\.)*"`)
-
-// escapesInsideAmount: some string literal of the text contains a backslash
-// escape and denotes an amount or a percentage.
-func escapesInsideAmount(text string) bool {
-	for _, lit := range reStrLit.FindAllString(text, -1) {
-		if !strings.Contains(lit, `\`) {
-			continue
-		}
-		var s string
-		if json.Unmarshal([]byte(lit), &s) == nil && reAmount.MatchString(s) {
-			return true
-		}
-	}
-	return false
-}
 
 func usesAddon(doc *c07.JV, addon string) bool {
 	a, _ := member(doc, "$addons")
@@ -615,11 +595,7 @@ func Run(c *core.Ctx) int {
 			c.Count(fmt.Sprintf("reencode:esc-style-%d:%s", st.Esc, o.class), 1)
 			c.Eval(fmt.Sprintf("reenc:%s:%d", b.name, k), true)
 			if o.class != "validates" {
-				cls := ""
-				if o.class == "parse-error" && escapesInsideAmount(t) {
-					cls = clsEscAmount
-				}
-				c.Fail(cls, fmt.Sprintf("%s re-serialised (member order / whitespace / escapes, style %+v) no longer validates: %s %s", b.name, st, o.class, short(o.detail)),
+				c.Fail("", fmt.Sprintf("%s re-serialised (member order / whitespace / escapes, style %+v) no longer validates: %s %s", b.name, st, o.class, short(o.detail)),
 					&ecase{Base: b.name, Text: t})
 			}
 		}
@@ -696,11 +672,7 @@ func Run(c *core.Ctx) int {
 func judgeOne(c *core.Ctx, b *base, ec *ecase, o outcome) {
 	if ec.Edit == nil {
 		if o.class != "validates" {
-			cls := ""
-			if o.class == "parse-error" && escapesInsideAmount(ec.Text) {
-				cls = clsEscAmount
-			}
-			c.Fail(cls, fmt.Sprintf("%s re-serialised no longer validates: %s %s", b.name, o.class, short(o.detail)), ec)
+			c.Fail("", fmt.Sprintf("%s re-serialised no longer validates: %s %s", b.name, o.class, short(o.detail)), ec)
 		}
 		return
 	}
